@@ -205,6 +205,9 @@ func cmdCheck(args []string) {
 	var undecidedLines []string
 	handle := func(fn string, vc *VC, r *Result) {
 		name := r.Obl.Name
+		if len(r.Obl.Only) > 0 && !hasProp(r.Obl.Only, *prop) {
+			return // clause scoped to other properties ("[Cxx]" prefix); reported by their checks
+		}
 		produced[name] = true
 		if r.Obl.MustFail {
 			probes++
@@ -228,7 +231,7 @@ func cmdCheck(args []string) {
 		}
 		// failing: known finding?
 		for _, kf := range known {
-			if kf.State == "open" && kf.Property == *prop && kf.Obligation == name {
+			if kf.State == "open" && kf.Property == *prop && (kf.Obligation == name || kf.Obligation == baseName(name)) {
 				if kf.When == "" || (vc != nil && remainderHolds(P, vc, fn, r, kf, outDir, timeout)) {
 					knownLines = append(knownLines, "KNOWN-FINDING: "+strings.TrimPrefix(kf.Text, "open: "))
 					total--
